@@ -110,8 +110,12 @@ def make_record(draw, case, cname, pos, kind, vi, v, order, bam_samples, info_de
             amax = max(nalts, 0)
             a, b = draw(st.integers(0, amax)), draw(st.integers(0, amax))
             gt = draw(st.sampled_from(["%d/%d" % (a, b)] * 6 + ["./.", "."]))
-        # pre-existing phasing
-        if pre[s] != "none" and "." not in gt and draw(st.integers(0, 2)) > 0:
+        # pre-existing phasing; sometimes even on a partially missing genotype ('.|1:77')
+        if pre[s] == "PS" and gt.count("/") == 1 and "." in gt and draw(st.integers(0, 1)) == 0:
+            gt = gt.replace("/", "|")
+            call["PS"] = str(draw(st.sampled_from([1, 77])))
+            any_ps = True
+        elif pre[s] != "none" and "." not in gt and draw(st.integers(0, 2)) > 0:
             a, b = gt.split("/")
             if a != b or draw(st.integers(0, 5)) == 0:
                 sid = draw(st.sampled_from([1, 77, 1000 + 0]))
@@ -196,11 +200,13 @@ class PassthroughPart:
                     new_phase = is_phased_call(cy) and (
                         (o["tag"] == "PS" and cy["phased"] and (not cx["phased"] or cx["fmt"].get("PS") != cy["fmt"].get("PS") or cx["GT"] != cy["GT"]))
                         or (o["tag"] == "HP" and "HP" in cy["fmt"] and cx["fmt"].get("HP") != cy["fmt"].get("HP")))
-                    if s in targets and x["chrom"] in chroms and new_phase:
+                    # On the unchanged tree the writer first removes all phase information of the target samples, so
+                    # every phase statement left on a target call of a processed chromosome is the writer's own.
+                    if s in targets and x["chrom"] in chroms and (new_phase or is_phased_call(cy)):
                         gt = cy["GT"]
                         where = "record %d (%s:%d, kind %s) sample %s" % (i, x["chrom"], x["pos"], case["kinds"][i], s)
                         if gt is None or any(g is None for g in gt) or len(set(gt)) < 2:
-                            ctx.violation("passthrough:phased-non-het", "%s newly phased with GT %r" % (where, gt))
+                            ctx.violation("passthrough:phased-non-het", "%s is marked phased with GT %r (input call: GT %r phased=%r)" % (where, gt, cx["GT"], cx["phased"]))
                         if len(x["alts"]) != 1:
                             ctx.violation("passthrough:phased-unsupported-record", "%s newly phased although the record has ALT %r" % (where, x["alts"]))
                         elif x["alts"][0].startswith("<"):
